@@ -11,6 +11,7 @@ SESSIONS = [
     (CHURN + ";;(define (adder n) (lambda (x) (+ x n)));;(define add5 (adder 5));;(churn 20);;(add5 10)", 'OK 15', 'a closure environment survives collections'),
     (CHURN + ";;(define v (vector (vector 1 2) (list 3 4)));;(churn 20);;(vector-ref (vector-ref v 0) 1)", 'OK 2', 'nested vectors survive collections'),
     (CHURN + ";;(define k #f);;(define (f n) (let ((m (* n 2))) (+ m (call/cc (lambda (c) (set! k c) 1)))));;(f 10);;(churn 20);;(define once #t);;(let ((r (k 5))) r)", None, 'a stored continuation survives collections'),
+    (CHURN + ";;(define k2 #f);;(define (g x) (define y (* x 2)) (+ (call/cc (lambda (c) (set! k2 c) 1)) y));;(g 10);;(churn 20);;(k2 5)", 'OK 25', 'the environment of the capturing frame (internal define) is reachable only through the saved %ep of a stored continuation and survives collections'),
     (CHURN + ";;(define lst (mk 50 '()));;(churn 20);;(length lst)", 'OK 50', 'a global list survives collections'),
     (CHURN + ";;(define (adder n) (lambda (x) (+ x n)));;(define v2 (vector (mk 5 '()) (adder 10) (vector (mk 3 '()))));;(churn 20);;(+ (length (vector-ref v2 0)) ((vector-ref v2 1) 1) (length (vector-ref (vector-ref v2 2) 0)))", 'OK 19', 'lists, closures and nested vectors held only by a vector survive collections'),
     (CHURN + ";;(define (adder n) (lambda (x) (+ x n)));;(define a1 (adder 1));;(define a2 (adder 1000));;(churn 20);;(+ (a1 1) (a2 1))", 'OK 1003', 'two closures of one lambda keep their own environments'),
